@@ -17,6 +17,8 @@
 //	idx n v         the next index node n draws from crypto/rand is v
 //	del n li        connection manager deleteTunnel on local index li
 //	swap n li       connection manager shouldSwapPrimary/swapPrimary on local index li
+//	cmcheck n li in out   connection manager doTrafficCheck for local index li with the given traffic flags
+//	block n m       config reload on node n putting node m's certificates on pki.blocklist
 package hsmanager
 
 import (
@@ -88,6 +90,10 @@ type world struct {
 	idxCtr  []uint32
 	rnd     *hlib.Rand
 	t0      int64 // virtual time of the reset (times are printed relative to it)
+	pkis    []m          // per node: the pki section of its configuration
+	fps     [][]string   // per node: fingerprints of its certificates
+	blocked [][]string   // per node: fingerprints on its blocklist
+	log0    *slog.Logger
 }
 
 func underlay(n int) netip.AddrPort {
@@ -257,14 +263,23 @@ func newWorld(t *testing.T, args []string) (w *world, res string) {
 		return w, "err:ca"
 	}
 	l := slog.New(slog.DiscardHandler)
+	w.log0 = l
 	for i, spec := range args[3:] {
 		parts := strings.SplitN(spec, ":", 2)
 		if len(parts) != 2 {
 			return w, "bad-op"
 		}
-		var nets []netip.Prefix
+		var ids []int
 		for _, s := range strings.Split(parts[1], ",") {
-			nets = append(nets, overlayPrefix(hlib.Atoi(s)))
+			ids = append(ids, hlib.Atoi(s))
+		}
+		if parts[0] == "3" {
+			// the v1 certificate carries the smallest address, which is also the first network of the (sorted) v2 one
+			sort.Ints(ids)
+		}
+		var nets []netip.Prefix
+		for _, id := range ids {
+			nets = append(nets, overlayPrefix(id))
 		}
 		var certPEM, keyPEM []byte
 		name := fmt.Sprintf("node%d", i)
@@ -274,16 +289,41 @@ func newWorld(t *testing.T, args []string) (w *world, res string) {
 		case "2":
 			_, _, keyPEM, certPEM = cert_test.NewTestCert(cert.Version2, cert.Curve_CURVE25519, ca, caKey, name, before, after, nets, nil, nil)
 		case "3":
+			// v1 certificate for the first (smallest) address, v2 certificate with the same key for all of them
 			var c1 cert.Certificate
 			var p1 []byte
 			c1, _, keyPEM, p1 = cert_test.NewTestCert(cert.Version1, cert.Curve_CURVE25519, ca, caKey, name, before, after, nets[:1], nil, nil)
-			_, p2 := cert_test.NewTestCertDifferentVersion(c1, cert.Version2, ca, caKey)
+			t2 := &cert.TBSCertificate{Version: cert.Version2, Curve: c1.Curve(), Name: c1.Name(), Networks: nets,
+				NotBefore: c1.NotBefore(), NotAfter: c1.NotAfter(), PublicKey: c1.PublicKey()}
+			c2, err := t2.Sign(ca, ca.Curve(), caKey)
+			if err != nil {
+				return w, "err:cert"
+			}
+			p2, err := c2.MarshalPEM()
+			if err != nil {
+				return w, "err:cert"
+			}
 			certPEM = append(append([]byte{}, p1...), p2...)
 		default:
 			return w, "bad-op"
 		}
+		pki := m{"ca": string(caPEM), "cert": string(certPEM), "key": string(keyPEM)}
+		w.pkis = append(w.pkis, pki)
+		w.blocked = append(w.blocked, nil)
+		var fps []string
+		rest := certPEM
+		for len(strings.TrimSpace(string(rest))) > 0 {
+			var crt cert.Certificate
+			crt, rest, err = cert.UnmarshalCertificateFromPEM(rest)
+			if err != nil {
+				return w, "err:cert"
+			}
+			fp, _ := crt.Fingerprint()
+			fps = append(fps, fp)
+		}
+		w.fps = append(w.fps, fps)
 		mc := m{
-			"pki": m{"ca": string(caPEM), "cert": string(certPEM), "key": string(keyPEM)},
+			"pki": pki,
 			"firewall": m{
 				"outbound": []m{{"proto": "udp", "port": "1000-1999", "host": "any"}},
 				"inbound":  []m{{"proto": "any", "port": "any", "host": "any"}},
@@ -478,6 +518,35 @@ func newExec(t *testing.T) func([]string) string {
 			}
 			w.cur = n
 			return w.finish(n, w.nodes[n].SwapCheck(uint32(hlib.Atou(a[2]))))
+		case "cmcheck":
+			n, ok := node(a[1])
+			if !ok {
+				return "bad-op"
+			}
+			w.cur = n
+			return w.finish(n, w.nodes[n].TrafficCheck(uint32(hlib.Atou(a[2])), a[3] == "1", a[4] == "1"))
+		case "block":
+			// config reload on node n: the certificates of node m go on pki.blocklist
+			n, ok := node(a[1])
+			mm, ok2 := node(a[2])
+			if !ok || !ok2 {
+				return "bad-op"
+			}
+			w.cur = n
+			w.blocked[n] = append(w.blocked[n], w.fps[mm]...)
+			pki := m{}
+			for k, v := range w.pkis[n] {
+				pki[k] = v
+			}
+			pki["blocklist"] = w.blocked[n]
+			c := config.NewC(w.log0)
+			if err := c.LoadString(yamlOf(m{"pki": pki})); err != nil {
+				return "err:config"
+			}
+			if err := w.nodes[n].ReloadCAPool(c); err != nil {
+				return "err:reload"
+			}
+			return w.finish(n, "ok")
 		}
 		return "bad-op"
 	}
